@@ -93,10 +93,14 @@ def stream_for(scen):
 
 
 class Run(object):
-    def __init__(self, scen, hello=False):
+    def __init__(self, scen, hello=False, scale=1):
         self.scen = scen
         self.hello = hello
+        # scale: one byte of application data in the model stands for that many bytes on the wire (the application's
+        # first segments may be far longer than any SOCKS reply)
+        self.scale = scale
         self.mrep, self.rep, self.appbytes = stream_for(scen)
+        self.appbytes = b"".join(bytes([b]) * scale for b in self.appbytes)
         self.stream = self.mrep + self.rep + self.appbytes
         self.pos = 0
         self.ep = FakeProxyEndpoint()
@@ -118,8 +122,7 @@ class Run(object):
             self.fired.append(v)
             if self.nest and not isinstance(v, failure.Failure):
                 k, self.nest = self.nest, 0
-                chunk = self.stream[self.pos:self.pos + k]
-                self.pos += k
+                chunk = self.take(k)
                 self.proto.dataReceived(chunk)
             else:
                 self.nest = 0
@@ -141,7 +144,7 @@ class Run(object):
         if app is not None:
             start = len(self.mrep) + len(self.rep)
             want = self.stream[start:start + len(app.got)]
-            appn = len(app.got) if app.got == want else -1
+            appn = len(app.got) // self.scale if (app.got == want and len(app.got) % self.scale == 0) else -1
             applost = app.lost > 0
             if app.lost > 1:
                 self.exc = True
@@ -198,12 +201,21 @@ class Run(object):
             return "val" if ok else "badval:%r" % (v,)
         return "val" if v == NAME[:self.scen["alen"]].decode() else "badval:%r" % (v,)
 
+    def take(self, n):
+        """the next n bytes of the model's stream, as bytes on the wire"""
+        r = len(self.mrep) + len(self.rep)
+
+        def conc(a):
+            return a if a <= r else r + (a - r) * self.scale
+        chunk = self.stream[conc(self.pos):conc(self.pos + n)]
+        self.pos += n
+        return chunk
+
     def step(self, e):
         a = e["a"]
         try:
             if a in ("Deliver", "DeliverNested"):
-                chunk = self.stream[self.pos:self.pos + e["n"]]
-                self.pos += e["n"]
+                chunk = self.take(e["n"])
                 self.nest = e.get("k", 0)
                 try:
                     self.proto.dataReceived(chunk)
@@ -225,8 +237,8 @@ class Run(object):
         return self.obs()
 
 
-def replay(scen, script, hello=False):
-    run = Run(scen, hello)
+def replay(scen, script, hello=False, scale=1):
+    run = Run(scen, hello, scale)
     steps = []
     for e in script:
         s = dict(e)
@@ -234,7 +246,7 @@ def replay(scen, script, hello=False):
         steps.append(s)
         if s["obs"]["exc"]:
             break       # the connection was dropped after the exception; nothing more can happen on it
-    return dict(scen=scen, steps=steps, hello=bool(hello), errors=run.errors[:2])
+    return dict(scen=scen, steps=steps, hello=bool(hello), scale=scale, errors=run.errors[:2])
 
 
 def total(scen):
